@@ -39,6 +39,12 @@ impl ScopeRef {
     pub fn sub_selectors(parent: Self, selectors: SelectorCtx) -> Self {
         Self::dynamic(Scope::sub_selectors(parent, selectors))
     }
+    /// Create a new subscope for the body of a flow control statement.
+    pub fn sub_flow(parent: Self) -> Self {
+        let mut scope = Scope::sub(parent);
+        scope.flow = true;
+        Self::dynamic(scope)
+    }
     fn dynamic(scope: Scope) -> Self {
         Self::Dynamic(Arc::new(scope))
     }
@@ -61,14 +67,14 @@ impl ScopeRef {
             let result = match b {
                 Item::IfStatement(cond, do_if, do_else) => {
                     if cond.evaluate(self.clone())?.is_true() {
-                        self.clone().eval_body(do_if)?
+                        Self::sub_flow(self.clone()).eval_body(do_if)?
                     } else {
-                        self.clone().eval_body(do_else)?
+                        Self::sub_flow(self.clone()).eval_body(do_else)?
                     }
                 }
                 Item::Each(names, values, body) => {
-                    let s = self.clone();
-                    for value in values.evaluate(s.clone())?.iter_items() {
+                    let s = Self::sub_flow(self.clone());
+                    for value in values.evaluate(self.clone())?.iter_items() {
                         s.define_multi(names, value)?;
                         if let Some(r) = s.clone().eval_body(body)? {
                             return Ok(Some(r));
@@ -78,7 +84,7 @@ impl ScopeRef {
                 }
                 Item::For(name, range, body) => {
                     let range = range.evaluate(self.clone())?;
-                    let s = self.clone();
+                    let s = Self::sub_flow(self.clone());
                     for value in range {
                         s.define(name.clone(), value)?;
                         if let Some(r) = s.clone().eval_body(body)? {
@@ -95,7 +101,7 @@ impl ScopeRef {
                     Some(v.do_evaluate(self.clone(), true)?)
                 }
                 Item::While(cond, body) => {
-                    let scope = Self::sub(self.clone());
+                    let scope = Self::sub_flow(self.clone());
                     while cond.evaluate(scope.clone())?.is_true() {
                         if let Some(r) = scope.clone().eval_body(body)? {
                             return Ok(Some(r));
@@ -198,6 +204,10 @@ pub struct Scope {
     selectors: Option<SelectorCtx>,
     forward: Mutex<Option<ScopeRef>>,
     format: Format,
+    /// True for the scope of a flow control body (`@if`, `@each`,
+    /// `@for`, `@while`), which is transparent for assignment to
+    /// global variables when used on the top level.
+    flow: bool,
     /// The thing to use for `@content` in a mixin.
     content: ArcSwapOption<MixinDecl>,
 }
@@ -218,6 +228,7 @@ impl Scope {
             selectors: None,
             forward: Default::default(),
             format,
+            flow: false,
             content: None.into(),
         }
     }
@@ -246,6 +257,7 @@ impl Scope {
             selectors: None,
             forward: Default::default(),
             format,
+            flow: false,
             content: None.into(),
         }
     }
@@ -261,6 +273,7 @@ impl Scope {
             selectors: Some(selectors),
             forward: Default::default(),
             format,
+            flow: false,
             content: None.into(),
         }
     }
@@ -290,7 +303,11 @@ impl Scope {
 
     /// Define a none-default, non-global variable.
     pub fn define(&self, name: Name, val: Value) -> Result<(), ScopeError> {
-        self.set_variable(name, val, false, false)
+        if name.split_module().is_some() {
+            return self.set_variable(name, val, false, false);
+        }
+        self.variables.lock().unwrap().insert(name, val);
+        Ok(())
     }
 
     /// Define a variable with a value.
@@ -330,10 +347,45 @@ impl Scope {
         }
         if global {
             self.define_global(name, val);
-        } else {
+        } else if !self.assign_existing_local(&name, &val)
+            && !(self.is_semi_global()
+                && self.assign_existing_global(&name, &val))
+        {
             self.variables.lock().unwrap().insert(name, val);
         }
         Ok(())
+    }
+    /// If `name` is declared in this or an enclosing local (non-global)
+    /// scope, assign the innermost such variable and return true.
+    fn assign_existing_local(&self, name: &Name, val: &Value) -> bool {
+        let Some(parent) = &self.parent else {
+            return false;
+        };
+        if let Some(var) = self.variables.lock().unwrap().get_mut(name) {
+            *var = val.clone();
+            return true;
+        }
+        parent.assign_existing_local(name, val)
+    }
+    /// If `name` is declared in the global scope, assign it and return true.
+    fn assign_existing_global(&self, name: &Name, val: &Value) -> bool {
+        if let Some(parent) = &self.parent {
+            parent.assign_existing_global(name, val)
+        } else if let Some(var) = self.variables.lock().unwrap().get_mut(name)
+        {
+            *var = val.clone();
+            true
+        } else {
+            false
+        }
+    }
+    /// True if all scopes from this to the global scope are flow
+    /// control scopes.
+    fn is_semi_global(&self) -> bool {
+        match &self.parent {
+            Some(parent) => self.flow && parent.is_semi_global(),
+            None => true,
+        }
     }
     /// Define a variable in the global scope that is an ultimate
     /// parent of this scope.
